@@ -200,14 +200,15 @@ func implReplay(drv *lib.Driver, id *ids, sc Scenario, out *outcome, pre []*lib.
 			tok := ""
 			for i := li - 1; i >= 0; i-- {
 				if s := log[i]; s.Kind == eServed && s.Num == e.Num && s.Hash.Equal(&e.Hash) && s.Valid == e.Valid {
-					tok = fmt.Sprintf("%d %s", s.Req, tokenOf(id, s))
+					tok = fmt.Sprintf("%d %s %s", s.Req, tokenOf(id, s), verHex(s.Ver))
 					break
 				}
 			}
 			if tok == "" {
 				return fmt.Sprintf("stored block %d was never served", e.Num), p.n, hits
 			}
-			obs := p.ask("impl deliver " + tok + " 0")
+			// (the delivery with the block's protocol version: Impl.deliverV)
+			obs := p.ask("impl deliverv " + tok + " 0")
 			hits["impl:deliver-stored"]++
 			want := strings.Join(append([]string{fmt.Sprintf("S %d %d", e.Num, id.of(&e.Hash))}, notifOf(nst)...), ";")
 			if obs != want && p.err == "" {
